@@ -202,6 +202,9 @@ class LogPublisher(Referenceable):
                 basename = six.ensure_str(self.trim(fn, ".bz2", ".flog"))
                 if basename > since:
                     fullname = six.ensure_str(os.path.join(basedir, fn))
+                    if os.path.islink(fullname):
+                        # only files that really are in the log directory
+                        continue
                     yield (basename, fullname)
 
     def get_incident_trigger(self, abs_fn):
